@@ -360,6 +360,7 @@ class SimEnv:
         self.on_fault = None                # fn(kind) called when a link fault is injected
         self.on_rx = None                   # fn(link_index) called when receive_packet returns a packet
         self.on_rx_wait = None              # fn(link_index) called when receive_packet is entered
+        self.on_rx_pk = None                # fn(link_index, header, data) called when receive_packet returns a packet
         self.on_tx = None                   # fn(link_index, header, data, status) at every send_packet
         self.hello = False                  # True: an unsolicited console packet is queued at connect
         self.hello_packets = None           # further unsolicited (header, payload) packets queued at connect
@@ -514,6 +515,8 @@ def make_driver_class():
                 return None
             if self.env.on_rx:
                 self.env.on_rx(self.index)
+            if self.env.on_rx_pk:
+                self.env.on_rx_pk(self.index, pk.header, bytes(pk.data))
             return pk
 
         def fail_from_driver_thread(self, msg='SimLink: too many packets lost'):
